@@ -15,6 +15,7 @@ type Clause struct {
 	Label string // optional "name:" label
 	File  string
 	Line  int
+	Pkg   string
 }
 
 type LoopSpec struct {
@@ -139,7 +140,7 @@ func (cs *ContractSet) LoadFile(path, pkgPath string) error {
 		if err != nil {
 			return nil, fmt.Errorf("%s:%d: %v", path, l.line, err)
 		}
-		return &Clause{Expr: e, Src: src, Label: label, File: path, Line: l.line}, nil
+		return &Clause{Expr: e, Src: src, Label: label, File: path, Line: l.line, Pkg: pkgPath}, nil
 	}
 	for _, l := range lines {
 		switch l.kw {
